@@ -15,8 +15,10 @@ package main
 
 import (
 	"fmt"
+	"io"
 	"net/http"
 	"runtime"
+	"sort"
 	"strconv"
 	"strings"
 	"sync"
@@ -33,6 +35,7 @@ import (
 	"github.com/negasus/haproxy-spoe-go/message"
 	"github.com/negasus/haproxy-spoe-go/payload/kv"
 	"github.com/rs/zerolog"
+	"github.com/rs/zerolog/log"
 
 	c "verifharness/common"
 )
@@ -50,6 +53,7 @@ type sleeper struct {
 	wake chan struct{}
 	due  int64
 	d    time.Duration
+	gid  int64 // goroutine that sleeps (suite fine: the vacuum loops are recognised by it)
 }
 
 type vclock struct {
@@ -61,6 +65,8 @@ type vclock struct {
 	// hook, when armed, runs once at the next reading of the clock, on the
 	// goroutine that reads it (see armCommit in split.go)
 	hook atomic.Pointer[func()]
+	// suite fine: every clock reading is a place where the harness can hold the reader
+	fine bool
 }
 
 func newClock(now int64) *vclock {
@@ -77,6 +83,9 @@ func (k *vclock) set(t int64) {
 	k.mu.Unlock()
 }
 func (k *vclock) Now() time.Time {
+	if k.fine {
+		fineYield("clock")
+	}
 	if f := k.hook.Swap(nil); f != nil {
 		(*f)()
 	}
@@ -86,7 +95,7 @@ func (k *vclock) Now() time.Time {
 // Sleep parks the calling goroutine until the harness wakes it; when the
 // history is over the goroutine is terminated.
 func (k *vclock) Sleep(d time.Duration) {
-	s := &sleeper{wake: make(chan struct{}), due: k.ns() + int64(d), d: d}
+	s := &sleeper{wake: make(chan struct{}), due: k.ns() + int64(d), d: d, gid: curGid()}
 	select {
 	case k.parked <- s:
 	case <-k.dead:
@@ -128,6 +137,13 @@ type Op struct {
 	// it while the following ops run) / its call succeeds / its call fails
 	U   int  `json:"u,omitempty"`
 	Rev bool `json:"revert,omitempty"` // begin: UpdatePoliciesData(_, unmanageImmediately = true)
+	// suite fine (see fine.go): fget G Txn / fupd U Tag / fvac W start a goroutine
+	// (wake a vacuum loop), fgo Who G|U|W lets it run to its next call-out (Fail:
+	// its HAProxy call fails), frun to the end of its operation
+	G    int    `json:"g,omitempty"`
+	W    int    `json:"w,omitempty"`
+	Who  string `json:"who,omitempty"`
+	Fail bool   `json:"fail,omitempty"`
 	// update / revert / commit: look-ups (get / req / resp) that arrive INSIDE
 	// setNextVersion, at the clock reading its VacuumKey makes
 	In []Op `json:"inside,omitempty"`
@@ -151,9 +167,20 @@ type Ev struct {
 	Rel      string `json:"t"` // human-readable offset from the start
 	Retained []int  `json:"retained"`
 	Implicit bool   `json:"implicit,omitempty"` // the pass a vacuum loop makes when it is started
+	// accessor state read after the action (shim VerifC11State): currentVersion,
+	// txnVersions sorted by transaction, the two vacuum queues as (vacuumAt, key);
+	// Ver = version the transaction of a get / req / resp is anchored to afterwards
+	Cur    int        `json:"cur"`
+	Pins   [][2]int   `json:"pins"`
+	TxnQ   [][2]int64 `json:"txn_queue"`
+	VerQ   [][2]int64 `json:"ver_queue"`
+	Ver    int        `json:"ver,omitempty"`
+	PreEnq bool       `json:"before_enqueue,omitempty"` // read inside setNextVersion, before VacuumKey appended the superseded version
 }
 
 type Case struct {
+	Fine    bool  `json:"fine,omitempty"`    // suite "fine": goroutines held at the call-outs of the code
+	FEvents []FEv `json:"steps,omitempty"`
 	Routing bool  `json:"routing,omitempty"` // suite "routing": through processRequest / processResponse
 	Auto    bool  `json:"auto_ticks"`        // vacuum loops wake up when their 5 s sleep is over
 	Ops     []Op  `json:"ops"`
@@ -220,8 +247,10 @@ type hist struct {
 	evMu    sync.Mutex
 	flMu    sync.Mutex
 	fl      []*inflight // updates inside their HAProxy call, in order of entry
+	preEnq   bool          // observations are being made inside setNextVersion, before its VacuumKey appended
 	inCommit bool          // the ops being executed run at the clock reading of a commit
 	pending  chan struct{} // an operation started at a commit's clock reading that has not completed yet
+	abandoned atomic.Bool  // suite fine: the history is over, nobody is held any more
 }
 
 func (h *hist) park(first bool) *sleeper {
@@ -256,13 +285,54 @@ func (h *hist) retained() []int {
 	return r
 }
 
+// txnNo: "txn-7" (suites hist, fine) / "h12-t7" (suite routing) -> 7
+func txnNo(id config.TxnID) int {
+	s := string(id)
+	if i := strings.LastIndexByte(s, '-'); i >= 0 {
+		s = strings.TrimPrefix(s[i+1:], "t")
+	}
+	n, err := strconv.Atoi(s)
+	if err != nil {
+		return -1
+	}
+	return n
+}
+
+// observe reads the accessor state into e.
+func (h *hist) observe(e *Ev) {
+	e.Retained = h.retained()
+	st := h.acc.VerifC11State()
+	e.Cur = st.CurrentVersion
+	e.Pins = [][2]int{}
+	for id, v := range st.Anchors {
+		e.Pins = append(e.Pins, [2]int{txnNo(id), v})
+	}
+	sort.Slice(e.Pins, func(i, j int) bool { return e.Pins[i][0] < e.Pins[j][0] })
+	e.TxnQ, e.VerQ = [][2]int64{}, [][2]int64{}
+	for i, at := range st.TxnQueueAt {
+		e.TxnQ = append(e.TxnQ, [2]int64{at.UnixNano(), int64(txnNo(st.TxnQueueKeys[i]))})
+	}
+	for i, at := range st.VerQueueAt {
+		e.VerQ = append(e.VerQ, [2]int64{at.UnixNano(), int64(st.VerQueueKeys[i])})
+	}
+}
+
 func (h *hist) ev(a string, txn, obj, tag int, implicit bool) *Ev {
 	now := h.clk.ns()
-	ret := h.retained()
+	e := Ev{A: a, Txn: txn, Obj: obj, Tag: tag, Now: now,
+		Rel: rel(now - h.k.T0), Implicit: implicit, InFlight: h.inFlightIDs(), InCommit: h.inCommit, PreEnq: h.preEnq}
+	h.observe(&e)
+	if a == "get" || a == "req" || a == "resp" {
+		e.Ver = -1
+		for _, p := range e.Pins {
+			if p[0] == txn {
+				e.Ver = p[1]
+			}
+		}
+	}
 	h.evMu.Lock()
 	defer h.evMu.Unlock()
-	h.k.Events = append(h.k.Events, Ev{A: a, Txn: txn, Obj: obj, Tag: tag, Now: now,
-		Rel: rel(now - h.k.T0), Retained: ret, Implicit: implicit, InFlight: h.inFlightIDs(), InCommit: h.inCommit})
+	h.k.Events = append(h.k.Events, e)
 	return &h.k.Events[len(h.k.Events)-1]
 }
 
@@ -526,10 +596,14 @@ func (h *hist) do(op Op) {
 	}
 }
 
+// All instants are printed relative to the start of the history; an observation
+// equal to the previous one (the initial state for the first) is printed as None.
 func coq(k *Case) string {
+	prev := initObs
 	return c.Tuple("0", c.MapList(k.Events, func(e Ev) string {
 		var a string
 		got := int64(0)
+		e.Now -= k.T0
 		switch e.A {
 		case "get":
 			a = fmt.Sprintf("A (Get %d %d)", e.Txn, e.Now)
@@ -567,12 +641,40 @@ func coq(k *Case) string {
 				a = "Acc (" + a + ")"
 			}
 		}
-		rs := make([]int64, len(e.Retained))
-		for i, r := range e.Retained {
-			rs[i] = int64(r)
+		ctor := "E"
+		if k.Routing {
+			ctor = "RE"
 		}
-		return c.Tuple(a, c.Z(got), c.ZList(rs))
+		return fmt.Sprintf("%s (%s) %s %s %s", ctor, a, c.Z(got), c.Z(int64(e.Ver)), coqObsDelta(&e, k.T0, &prev))
 	}))
+}
+
+const initObs = "(Obs false [0] 1 [] [] [])"
+
+func coqObsDelta(e *Ev, t0 int64, prev *string) string {
+	o := coqObs(e, t0)
+	if o == *prev {
+		return "None"
+	}
+	*prev = o
+	return "(Some " + o + ")"
+}
+
+func zz(p [][2]int64, t0 int64) string {
+	return c.MapList(p, func(x [2]int64) string { return c.Tuple(c.Z(x[0]-t0), c.Z(x[1])) })
+}
+
+// coqObs: the accessor state read after an event, as a Model.obs
+func coqObs(e *Ev, t0 int64) string {
+	rs := make([]int64, len(e.Retained))
+	for i, r := range e.Retained {
+		rs[i] = int64(r)
+	}
+	pins := make([][2]int64, len(e.Pins))
+	for i, p := range e.Pins {
+		pins[i] = [2]int64{int64(p[0]), int64(p[1])}
+	}
+	return fmt.Sprintf("(Obs %s %s %s %s %s %s)", c.B(e.PreEnq), c.ZList(rs), c.Z(int64(e.Cur)), zz(pins, 0), zz(e.TxnQ, t0), zz(e.VerQ, t0))
 }
 
 // ------------------------------------------------------------------ monitor
@@ -883,7 +985,7 @@ func gridRouting(o *c.Out) {
 func randomRouting(o *c.Out) {
 	r := o.Rng
 	deltas := []int64{0, 1, sec, tick, 2 * tick, 25 * sec, ttl - 1, ttl, ttl + 1}
-	for i := 0; i < o.Scale(1200, 12000, 20000); i++ {
+	for i := 0; i < o.Scale(1200, 8000, 20000); i++ {
 		k := Case{Auto: r.Bool()}
 		type txn struct{ id, seq int }
 		nseq := r.Range(1, 3)
@@ -1145,6 +1247,8 @@ func main() {
 	http.DefaultClient.Transport = stub
 	o.DeclareSuite("hist", "From Verif Require Import C11.Model.", "case", "run_case")
 	o.DeclareSuite("routing", "From Verif Require Import C11.Model.", "rcase", "run_rcase")
+	o.DeclareSuite("fine", "From Verif Require Import C11.Model C11.Fine.", "fcase", "run_fcase")
+	log.Logger = zerolog.New(io.Discard).Hook(fineHook{})
 	o.Rule("histories of look-ups (3-4 transactions), reloads/reverts/refused reloads (fresh object each), " +
 		"clock advances and single passes of the two real vacuum loops: (a) every sequence up to a length bound over " +
 		"{get t1, get t2, update, +30s-1ns, +1ns, +5s, pass txn-vacuum, pass version-vacuum}, alone and after [get t1; update]; " +
@@ -1155,10 +1259,17 @@ func main() {
 		"retried attempts (id != sequence id), reloads between a request and its response, response status = marker of the object current at " +
 		"the request (mostly) / at the response / random; grid + random; non-trivial = a response with id != sequence id, a reload between a " +
 		"request and its response, and a retry action; or a transaction first seen inside the HAProxy call window of an update (grid: request inside/before " +
-		"the window x call succeeds/fails x one more update x response inside/after x marker of object 0/1/2; random) and seen again after it, and a retry action")
+		"the window x call succeeds/fails x one more update x response inside/after x marker of object 0/1/2; random) and seen again after it, and a retry action. " +
+		"Suite fine: goroutines of look-ups, updates and the two vacuum passes held at the call-outs of the code (clock readings, the two log lines of the " +
+		"look-up, the HAProxy call) while others run: grid (two first look-ups of one transaction in progress with an update before/between/after their " +
+		"setTxnVersion sections; the clock readings of a look-up's and an update's VacuumKey in either order; a pass finishing on an old snapshot / clock " +
+		"reading; the fallback branch with an update in between; overlapping setNextVersion) + random schedules decided step by step; non-trivial = at least " +
+		"3 steps ran while another goroutine was inside an operation")
 	var k Case
 	if suite, ok := o.ReplayCase(&k); ok {
-		if suite == "routing" || k.Routing {
+		if suite == "fine" || k.Fine {
+			runFine(o, k, o.Rng)
+		} else if suite == "routing" || k.Routing {
 			runRouting(o, k)
 		} else {
 			run(o, k)
@@ -1174,13 +1285,19 @@ func main() {
 		gridRouting(o)
 		windowGridRouting(o)
 		commitArrivalsRouting(o)
+		fineGrid(o)
 	}
+	fineRandom(o)
 	random(o)
 	randomWindows(o)
 	randomRouting(o)
 	if blockedSeen > 0 {
 		o.Note(fmt.Sprintf("%d operations did not complete while an update was inside its HAProxy call (they waited for a lock the update holds); "+
 			"window cases stop being generated after 8", blockedSeen))
+	}
+	if fineStuck > 0 {
+		o.Note(fmt.Sprintf("suite fine: in %d histories a goroutine reached no call-out within %v (it waits for a lock held by a goroutine parked at a call-out); "+
+			"the suite stops after 4", fineStuck, stuckBound))
 	}
 	if vacuumNeverStarts {
 		o.Note("a vacuum loop was never seen entering Sleep after the first VacuumKey; its passes could not be driven")
@@ -1243,7 +1360,7 @@ func grid(o *c.Out) {
 func random(o *c.Out) {
 	r := o.Rng
 	deltas := []int64{0, 1, tick - 1, tick, tick + 1, 2 * tick, 25 * sec, ttl - 1, ttl, ttl + 1, ttl + tick}
-	for i := 0; i < o.Scale(1500, 20000, 30000); i++ {
+	for i := 0; i < o.Scale(1500, 10000, 30000); i++ {
 		k := Case{Auto: r.Bool()}
 		n := r.Range(4, 24)
 		now := int64(0)
